@@ -14,6 +14,7 @@ sed -i "s#/repo/#$TREE/#g" "$SCR/Cargo.toml"
 cp "$TREE/Cargo.lock" "$SCR/Cargo.lock" 2>/dev/null || true
 cp /verif/harness/Cargo.lock "$SCR/Cargo.lock"
 export VERIF_OUT="$TREE/.verif-out"
+export VERIF_REPO="$TREE"
 export CARGO_TARGET_DIR="${RUN_ON_TREE_TARGET:-$SCR/target}"
 export VERIF_HARNESS_DIR="$SCR"
 exec /verif/check "$@"
